@@ -65,12 +65,14 @@ def facts : Facts :=
 /-- fingerprints (extract/common FuncHash) of the functions Model/Boundary.lean was transcribed from -/
 def sourceHashes : List (String × String) :=
   [("callBin", "91abce538f1eb63f"),
-   ("genFunctionWrapper", "033ce6ccd17871ac"),
-   ("getFunc", "767f1bf470b0d0fd"),
+   ("genFunctionWrapper", "4feabaa50796f8ae"),
+   ("getFunc", "b1cec79847c23ec5"),
    ("call", "382b1d010889c322"),
    ("genInterfaceWrapper", "39c789f3e29ad824"),
    ("methodByName", "cf343e4f55a358c1"),
    ("getFrame", "48dc117bdbd1af33"),
+   ("genFunctionWrapperFor", "7ae088f127151d29"),
+   ("genHostFunctionWrapper", "fbf22c3d3d999031"),
    ("callVariadic", "a136ff7434f20d7e"),
    ("deferCallSlice", "8195ae3a302030b3"),
    ("runDeferred", "3744dc350d781dfc"),
@@ -90,10 +92,10 @@ def sourceHashes : List (String × String) :=
    ("genValueArray", "7423f6a50d5d826f"),
    ("genValue", "831b100a10664633"),
    ("genValueRecv", "a3dad7fc975e9eb7"),
-   ("Interpreter.Execute", "19fb5462ea693d28"),
-   ("newCallFrame", "43aa5e7f13021a5b"),
-   ("newFrame", "da1db819d5067f56"),
-   ("Interpreter.Symbols", "38f5e077316d112e"),
+   ("Interpreter.Execute", "c568aa6d3c471274"),
+   ("newCallFrame", "40f1e0d7f7a1dce0"),
+   ("newFrame", "8d3a53ebf9cf8afa"),
+   ("Interpreter.Symbols", "946c048ccf8efb14"),
    ("getWrapper", "1311018b7c7efb25"),
    ("Interpreter.Use", "4e42634dd7e03d36"),
    ("Interpreter.Globals", "f94935e512b7f300"),
@@ -144,6 +146,18 @@ def sourceHashes : List (String × String) :=
       getIndexBinElemMethod call `.Method(m)` on `bindRecv(…)`, getIndexBinMethod selects a value-receiver method reached through
       a pointer on the pointee (`hostMethodBindsRecv`, `bindRecvCopies`; the three getIndexBin*Method functions are fingerprinted
       now); 2acc7e3 (F07-14) is in cfg.go (the type of the method value of a script pointer to a host value), not fingerprinted;
+    * last re-sync at the frozen HEAD fb8122a (reviewed against genFunctionWrapper 033ce6ccd17871ac, getFunc 767f1bf470b0d0fd,
+      Interpreter.Execute 19fb5462ea693d28, Interpreter.Symbols 38f5e077316d112e, newCallFrame 43aa5e7f13021a5b, newFrame
+      da1db819d5067f56): dc95f3e — the body of genFunctionWrapper moves, with two additions, into genFunctionWrapperFor(n, host);
+      genFunctionWrapper / genHostFunctionWrapper are the one-line delegations with host = false / true (checked by the extractor,
+      all three fingerprinted); the additions: `var e *epoch; if !host { e = f.getEpoch() }` when the wrapper is generated, and
+      the frame of an invocation is `newCallFrame(n.interp, f, len(def.types), e)` (getFunc: `newCallFrame(n.interp, fr,
+      len(n.types), fr.getEpoch())`), still inside the reflect.MakeFunc literal; newCallFrame builds the frame itself (`length`
+      cells, ancestor `anc`, the interpreter's current run id and cancellation channel read under one RLock, deadRunID when the
+      epoch was cancelled); newFrame copies the ancestor's epoch; Execute brackets the evaluation with begin()/end() instead of
+      setting / refreshing the root's run id and returns genHostFunctionWrapper(n); Symbols uses genHostFunctionWrapper;
+      2db9fe7 — Execute no longer replaces interp.done. Epochs, run ids and cancellation are not modelled: the tied facts
+      (frame of len(def.types) cells allocated per call, receiver binding, result slices) read as before;
     * db2d0c1 (reviewed before, C02 F02-5): `call` skips a zero-valued argument only when its type differs from the
       parameter's; arguments of the parameter's type are always copied (what the model assumes for every argument);
     * 215471a / 2e388d6: runCfg's deferred loop calls runDeferred (own recover) with the frame lock released. -/
